@@ -1,0 +1,202 @@
+//! Verification seams (compiled only with `--cfg pearl_verif`).
+//!
+//! Nothing in this module changes behaviour unless a [`SimHooks`] object is installed on the
+//! current thread with [`install`]; without one every function falls back to the real
+//! operating-system behaviour. A deterministic simulator installs hooks to own every source
+//! of nondeterminism of the library: blocking-pool scheduling, file I/O results, wall clock.
+#![allow(missing_docs)]
+
+use std::cell::RefCell;
+use std::fs::{File as RealFile, Metadata, OpenOptions};
+use std::io::{Error as IoError, Result as IoResult};
+use std::os::unix::prelude::{AsRawFd, FileExt, RawFd};
+use std::path::{Path, PathBuf};
+use std::rc::Rc;
+use std::time::{Duration, SystemTime};
+
+/// What the simulator wants to happen with one write call.
+#[derive(Debug, Clone, Copy, PartialEq, Eq)]
+pub enum WriteDecision {
+    /// Perform the whole write and return `Ok`.
+    Proceed,
+    /// Do not write anything, return the errno as error.
+    Fail(i32),
+    /// Write only the first `n` bytes, then return the errno as error.
+    Short(usize, i32),
+}
+
+/// Callbacks implemented by the simulator. All methods are called on the thread the hooks
+/// were installed on.
+pub trait SimHooks {
+    /// Before a file is opened (`create` = opened through `IoDriver::create`).
+    fn on_open(&self, path: &Path, create: bool) -> Result<(), i32>;
+    /// After a file was opened successfully.
+    fn opened(&self, path: &Path, create: bool, len: u64);
+    /// Before a positional write.
+    fn on_write(&self, path: &Path, offset: u64, data: &[u8]) -> WriteDecision;
+    /// Before a positional read.
+    fn on_read(&self, path: &Path, offset: u64, len: usize) -> Result<(), i32>;
+    /// Before a sync.
+    fn on_sync(&self, path: &Path) -> Result<(), i32>;
+    /// After a successful sync.
+    fn synced(&self, path: &Path);
+    /// Before a file is truncated in place (index re-creation).
+    fn on_truncate(&self, path: &Path);
+    /// Simulated latency of the next blocking job (`None`/zero = just yield once).
+    fn job_latency(&self) -> Option<Duration>;
+    /// Whether small I/O operations run in place (multi-thread runtime flavour) or every
+    /// operation is a suspension point (current-thread flavour).
+    fn inplace_small(&self) -> bool;
+    /// Simulated wall clock.
+    fn now(&self) -> SystemTime;
+    /// Simulated creation time of a file.
+    fn file_created_at(&self, path: &Path) -> Option<SystemTime>;
+    /// Tunable constant.
+    fn knob(&self, name: &str, default: usize) -> usize;
+    /// Should the named cooperative yield point yield now?
+    fn buggify(&self, site: &str) -> bool;
+}
+
+thread_local! {
+    static HOOKS: RefCell<Option<Rc<dyn SimHooks>>> = RefCell::new(None);
+}
+
+/// Install hooks for the current thread.
+pub fn install(hooks: Rc<dyn SimHooks>) {
+    HOOKS.with(|h| *h.borrow_mut() = Some(hooks));
+}
+
+/// Remove hooks from the current thread.
+pub fn uninstall() {
+    HOOKS.with(|h| *h.borrow_mut() = None);
+}
+
+/// Are hooks installed on this thread?
+pub fn is_active() -> bool {
+    HOOKS.with(|h| h.borrow().is_some())
+}
+
+fn with<R>(f: impl FnOnce(&dyn SimHooks) -> R) -> Option<R> {
+    let hooks = HOOKS.with(|h| h.borrow().clone());
+    hooks.map(|h| f(&*h))
+}
+
+/// Simulated (or real) wall clock.
+pub fn system_now() -> SystemTime {
+    with(|h| h.now()).unwrap_or_else(SystemTime::now)
+}
+
+/// Tunable constant (or its shipped default).
+pub fn knob(name: &str, default: usize) -> usize {
+    with(|h| h.knob(name, default)).unwrap_or(default)
+}
+
+/// `Some(flag)` when a simulator decides which I/O runs in place.
+pub fn inplace_small() -> Option<bool> {
+    with(|h| h.inplace_small())
+}
+
+/// Cooperative yield point: suspends the current task once if the simulator says so.
+pub async fn buggify_yield(site: &'static str) {
+    if with(|h| h.buggify(site)).unwrap_or(false) {
+        tokio::task::yield_now().await;
+    }
+}
+
+/// Record that `path` is about to be truncated.
+pub fn note_truncate(path: &Path) {
+    with(|h| h.on_truncate(path));
+}
+
+/// Simulated blocking job: same contract as `spawn_blocking(f).await` (the closure is detached
+/// and runs even if the caller is dropped) but it runs on the current thread after a simulated
+/// latency chosen by the simulator.
+pub async fn blocking_job<F, R>(f: F) -> R
+where
+    F: FnOnce() -> R + Send + 'static,
+    R: Send + 'static,
+{
+    let latency = with(|h| h.job_latency()).flatten();
+    let handle = tokio::spawn(async move {
+        match latency {
+            Some(d) if !d.is_zero() => tokio::time::sleep(d).await,
+            _ => tokio::task::yield_now().await,
+        }
+        f()
+    });
+    handle.await.expect("simulated blocking job failed")
+}
+
+/// `std::fs::File` wrapper reporting every operation to the installed hooks. Its inherent
+/// methods shadow the `FileExt` ones used by the I/O layer.
+#[derive(Debug)]
+pub struct TappedFile {
+    file: RealFile,
+    path: PathBuf,
+}
+
+impl TappedFile {
+    /// Open with the same flags as `IoDriver::open` (`create == false`) or
+    /// `IoDriver::create` (`create == true`).
+    pub fn open_verif(path: &Path, create: bool) -> IoResult<Self> {
+        if let Some(Err(errno)) = with(|h| h.on_open(path, create)) {
+            return Err(IoError::from_raw_os_error(errno));
+        }
+        let mut options = OpenOptions::new();
+        if create {
+            options.create(true).write(true).read(true);
+        } else {
+            options.create(false).append(true).read(true);
+        }
+        let file = options.open(path)?;
+        let len = file.metadata()?.len();
+        with(|h| h.opened(path, create, len));
+        Ok(Self {
+            file,
+            path: path.to_owned(),
+        })
+    }
+
+    pub fn write_all_at(&self, buf: &[u8], offset: u64) -> IoResult<()> {
+        match with(|h| h.on_write(&self.path, offset, buf)) {
+            None | Some(WriteDecision::Proceed) => self.file.write_all_at(buf, offset),
+            Some(WriteDecision::Fail(errno)) => Err(IoError::from_raw_os_error(errno)),
+            Some(WriteDecision::Short(n, errno)) => {
+                let n = n.min(buf.len());
+                self.file.write_all_at(&buf[..n], offset)?;
+                Err(IoError::from_raw_os_error(errno))
+            }
+        }
+    }
+
+    pub fn read_exact_at(&self, buf: &mut [u8], offset: u64) -> IoResult<()> {
+        if let Some(Err(errno)) = with(|h| h.on_read(&self.path, offset, buf.len())) {
+            return Err(IoError::from_raw_os_error(errno));
+        }
+        self.file.read_exact_at(buf, offset)
+    }
+
+    pub fn sync_all(&self) -> IoResult<()> {
+        if let Some(Err(errno)) = with(|h| h.on_sync(&self.path)) {
+            return Err(IoError::from_raw_os_error(errno));
+        }
+        self.file.sync_all()?;
+        with(|h| h.synced(&self.path));
+        Ok(())
+    }
+
+    pub fn metadata(&self) -> IoResult<Metadata> {
+        self.file.metadata()
+    }
+
+    /// Simulated creation time, if a simulator provides one.
+    pub fn created_at_verif(&self) -> Option<SystemTime> {
+        with(|h| h.file_created_at(&self.path)).flatten()
+    }
+}
+
+impl AsRawFd for TappedFile {
+    fn as_raw_fd(&self) -> RawFd {
+        self.file.as_raw_fd()
+    }
+}
